@@ -293,6 +293,33 @@ impl<'a, MutexType: RawMutex> Drop
     }
 }
 
+#[cfg(all(futures_intrusive_verif, feature = "alloc"))]
+impl<MutexType: RawMutex> GenericManualResetEvent<MutexType> {
+    /// Read-only snapshot of the internal state for the verification harness
+    pub fn verif_snapshot(
+        &self,
+        is_live: crate::verif::IsLive<'_>,
+    ) -> crate::verif::Snapshot {
+        let state = self.inner.lock();
+        let mut snap = crate::verif::Snapshot::default();
+        snap.scalars.push(("is_set", state.is_set as u64));
+        snap.queues.push(crate::verif::snap_list(
+            "waiters",
+            &state.waiters,
+            is_live,
+            &|e: &WaitQueueEntry| {
+                let code = match e.state {
+                    PollState::New => 0,
+                    PollState::Waiting => 1,
+                    PollState::Done => 2,
+                };
+                (code, e.task.is_some(), 0)
+            },
+        ));
+        snap
+    }
+}
+
 // Export a non thread-safe version using NoopLock
 
 /// A [`GenericManualResetEvent`] which is not thread-safe.
